@@ -17,7 +17,10 @@ macro_rules! byte (
 
 #[derive(Debug, Clone, PartialEq, Eq)]
 pub(super) enum ChunkedState {
+    /// Start of a chunk-size line: at least one hex digit is required.
     Size,
+    /// At least one chunk-size digit has been read.
+    SizeDigit,
     SizeLws,
     Extension,
     SizeLf,
@@ -38,7 +41,8 @@ impl ChunkedState {
     ) -> Poll<Result<ChunkedState, io::Error>> {
         use self::ChunkedState::*;
         match *self {
-            Size => ChunkedState::read_size(body, size),
+            Size => ChunkedState::read_size(body, size, true),
+            SizeDigit => ChunkedState::read_size(body, size, false),
             SizeLws => ChunkedState::read_size_lws(body),
             Extension => ChunkedState::read_extension(body),
             SizeLf => ChunkedState::read_size_lf(body, *size),
@@ -51,16 +55,22 @@ impl ChunkedState {
         }
     }
 
-    fn read_size(rdr: &mut BytesMut, size: &mut u64) -> Poll<Result<ChunkedState, io::Error>> {
+    fn read_size(
+        rdr: &mut BytesMut,
+        size: &mut u64,
+        first: bool,
+    ) -> Poll<Result<ChunkedState, io::Error>> {
         let radix = 16;
 
+        // chunk-size = 1*HEXDIG: the line must not end (or continue with BWS / an extension)
+        // before the first digit
         let rem = match byte!(rdr) {
             b @ b'0'..=b'9' => b - b'0',
             b @ b'a'..=b'f' => b + 10 - b'a',
             b @ b'A'..=b'F' => b + 10 - b'A',
-            b'\t' | b' ' => return Poll::Ready(Ok(ChunkedState::SizeLws)),
-            b';' => return Poll::Ready(Ok(ChunkedState::Extension)),
-            b'\r' => return Poll::Ready(Ok(ChunkedState::SizeLf)),
+            b'\t' | b' ' if !first => return Poll::Ready(Ok(ChunkedState::SizeLws)),
+            b';' if !first => return Poll::Ready(Ok(ChunkedState::Extension)),
+            b'\r' if !first => return Poll::Ready(Ok(ChunkedState::SizeLf)),
             _ => {
                 return Poll::Ready(Err(io::Error::new(
                     io::ErrorKind::InvalidInput,
@@ -74,7 +84,7 @@ impl ChunkedState {
                 *size = n;
                 *size += rem as u64;
 
-                Poll::Ready(Ok(ChunkedState::Size))
+                Poll::Ready(Ok(ChunkedState::SizeDigit))
             }
             None => {
                 debug!("chunk size would overflow u64");
@@ -401,6 +411,31 @@ mod tests {
         assert!(err
             .to_string()
             .contains("Invalid character in chunk extension"));
+    }
+
+    #[test]
+    fn chunk_size_requires_a_digit() {
+        for body in ["\r\n\r\n", " \r\n\r\n", ";ext\r\n\r\n", "1\r\na\r\n\r\n\r\n"] {
+            let mut buf = BytesMut::from(
+                "POST / HTTP/1.1\r\n\
+                Transfer-Encoding: chunked\r\n\
+                \r\n",
+            );
+            buf.extend_from_slice(body.as_bytes());
+
+            let mut reader = MessageDecoder::<Request>::default();
+            let (_msg, pl) = reader.decode(&mut buf).unwrap().unwrap();
+            let mut pl = pl.unwrap();
+
+            let res = loop {
+                match pl.decode(&mut buf) {
+                    Ok(Some(PayloadItem::Chunk(_))) => continue,
+                    other => break other,
+                }
+            };
+            let err = res.unwrap_err();
+            assert!(err.to_string().contains("Invalid chunk size line: Invalid Size"));
+        }
     }
 
     #[test]
